@@ -277,4 +277,57 @@ theorem rndId_ns_length {cid : Cid} {id : RowNamespaceDataId} (h : RowNamespaceD
                 simp only
                 rw [e1]; exact e2
 
+/-! ## the byte strings hashed when an accepted block is verified (audit repair X1: relative collision-freeness) -/
+
+/-- the inputs the multihasher's `Row::verify` hashes for this block: the leaf and inner-node preimages of the row tree
+    it rebuilds from the decoded shares (`[]` when the block does not decode to a row, in which case nothing is hashed) -/
+def rowBlockInputs (H : HashFn) (P : Params) (input : Bytes) : List Bytes :=
+  match P.decodeBlock input with
+  | none => []
+  | some (cidB, cont) =>
+    match Cid.read cidB with
+    | none => []
+    | some cid =>
+      match RowId.ofCid cid with
+      | .error _ => []
+      | .ok id =>
+        match P.decodeRow cont with
+        | none => []
+        | some raw =>
+          match rowFromRaw P.codec id.index raw with
+          | .ok r => Lumina.Proofs.Row.rowInputs H r
+          | _ => []
+
+theorem rowBlockInputs_eq {H : HashFn} {P : Params} {input cidB cont : Bytes} {cid : Cid} {id : RowId} {raw : RawRow}
+    {r : Lumina.Model.Decoders.Row} (h1 : P.decodeBlock input = some (cidB, cont)) (h2 : Cid.read cidB = some cid)
+    (h3 : RowId.ofCid cid = .ok id) (h4 : P.decodeRow cont = some raw) (h5 : rowFromRaw P.codec id.index raw = .ok r) :
+    rowBlockInputs H P input = Lumina.Proofs.Row.rowInputs H r := by
+  simp only [rowBlockInputs, h1, h2, h3, h4, h5]
+
+/-- the inputs the multihasher's `RowNamespaceData::verify` hashes for this block: the claimed leaves' preimages (under
+    the namespace of the block's own CID) and the `hash_nodes` calls of the range-proof check (`[]` when the block does not
+    decode to a row-namespace-data container) -/
+def rndBlockInputs (H : HashFn) (P : Params) (input : Bytes) : List Bytes :=
+  match P.decodeBlock input with
+  | none => []
+  | some (cidB, cont) =>
+    match Cid.read cidB with
+    | none => []
+    | some cid =>
+      match RowNamespaceDataId.ofCid cid with
+      | .error _ => []
+      | .ok id =>
+        match P.decodeRnd cont with
+        | none => []
+        | some raw =>
+          match rndFromRaw id.ns raw with
+          | .ok d => Lumina.Proofs.NmtRange.vcnInputs H d.proof (d.shares.map Share.data) id.ns
+          | _ => []
+
+theorem rndBlockInputs_eq {H : HashFn} {P : Params} {input cidB cont : Bytes} {cid : Cid} {id : RowNamespaceDataId}
+    {raw : RawRnd} {d : Rnd} (h1 : P.decodeBlock input = some (cidB, cont)) (h2 : Cid.read cidB = some cid)
+    (h3 : RowNamespaceDataId.ofCid cid = .ok id) (h4 : P.decodeRnd cont = some raw) (h5 : rndFromRaw id.ns raw = .ok d) :
+    rndBlockInputs H P input = Lumina.Proofs.NmtRange.vcnInputs H d.proof (d.shares.map Share.data) id.ns := by
+  simp only [rndBlockInputs, h1, h2, h3, h4, h5]
+
 end Lumina.Proofs.ShwapSoundRows
